@@ -498,9 +498,11 @@ std::string fgets(FILE* f) {
         throw io_error(fileno(f), "cannot read from stream");
       }
     }
+    // ::fgets reads at most (block size - 1) characters, so the line continues
+    // in the next block only if this block is full and doesn't end in a newline
     size_t block_bytes = strlen(block.c_str());
-    if ((block_bytes < 0x100) || (block[0xFF] == '\n')) {
-      block.resize(block_bytes);
+    block.resize(block_bytes);
+    if ((block_bytes < 0xFF) || (block[0xFE] == '\n')) {
       break; // The line ends at the end of this block
     }
   }
